@@ -256,6 +256,15 @@ def handle_mismatches(c, drv, scns, mism, tag):
             m2, _ = run_and_validate(c, drv, [read_ndjson(rp)], 'confirm%d' % i)
             runs.append(m2[0] if m2 else None)
         if not runs[0] or not runs[1] or runs[0][1] != runs[1][1]:
+            # not reproducible alone: the failure may need the pooled objects an earlier scenario left behind
+            got = eclib.confirm_behind_predecessors(c, drv, scns, tr)
+            if got:
+                lines, (_, line, exp, obs) = got
+                rp = c.save_replay('%s-tr%d-with-predecessors.ndjson' % (tag, tr), lines)
+                if ('pooled', tag) not in c.cov.setdefault('reported', []):
+                    c.cov['reported'].append(('pooled', tag))
+                    c.violation('reproduced only behind its predecessor scenarios (state left in pooled objects): ' + describe(obs, exp, line, tr), rp)
+                continue
             tr0, line, exp, obs = [m for m in mism if m[0] == tr][0]
             c.inconclusive.append('mismatch of %s trace %d did not reproduce from its replay file: %s OBSERVED %s' % (
                 tag, tr, describe(obs, exp, line, tr)[:1200], json.dumps(obs)[:1200]))
